@@ -527,7 +527,12 @@ func (vc *VC) zeroRows(st *State, id Term, t types.Type) {
 		_, cell := vc.memKindByName(name)
 		m := vc.get(st, name, memSort(cell))
 		z := vc.zeroOfSort(cell)
-		nm := Store(m, id, T(ArraySort(SPath, cell), "((as const %s) %s)", ArraySort(SPath, cell), z.S))
+		zrow := T(ArraySort(SPath, cell), "((as const %s) %s)", ArraySort(SPath, cell), z.S)
+		if cell == SStr {
+			// cvc5 wants a value under `as const`; an uninterpreted Str has none
+			zrow = Term{"zerorow$Str", ArraySort(SPath, SStr)}
+		}
+		nm := Store(m, id, zrow)
 		vc.set(st, name, vc.q.Define(name, nm))
 	}
 }
